@@ -251,7 +251,7 @@ def parse_statement(toks, ln):
             raise TealSyntaxError("int too large")
         return instr(op, ln, b=digits(v), s=named)
     if op in ("byte", "pushbytes", "addr") and len(args) == 1 and TMPL.fullmatch(args[0]):
-        return instr(op, ln, b=tmpl_value(args[0], 32 if op == "addr" else 5), s=args[0])
+        return instr(op, ln, b=tmpl_value(args[0], 5), s=args[0])
     if op in ("byte", "pushbytes"):
         bs, used = parse_bytes_tokens(args)
         if used != len(args):
